@@ -3,9 +3,11 @@
   environment decisions the real loop can exhibit and the acceptor recognises).
 -/
 import Gnet.Spec.ReactorSpec
+import Gnet.Props.C06
 import Gnet.Proofs.ReactorLife
 import Gnet.Props.Handover
 import Gnet.Props.Drain
+import Gnet.Props.Drain2
 import Gnet.Proofs.DrainOrder
 import Gnet.Gen.Facts
 import Gnet.Spec.ReactorExample
@@ -59,6 +61,16 @@ theorem drain_partition (s : Drain.State) (h : Drain.Reachable s) :
     (s.ran ++ s.aborted ++ s.queue).Perm (List.range s.next) :=
   Props.Drain.drain_partition s h
 
+/-- the same with the two task queues the poller really has (urgent and normal; `Poller.Drain` empties one after the
+other, a producer's task may be in either): nothing is stranded in either queue -/
+theorem nothing_stranded2 : type_of% @Gnet.Props.Drain2.nothing_stranded2 := @Gnet.Props.Drain2.nothing_stranded2
+
+theorem drain2_partition : type_of% @Gnet.Props.Drain2.drain2_partition := @Gnet.Props.Drain2.drain2_partition
+
+theorem quiescent_all_settled2 : type_of% @Gnet.Props.Drain2.quiescent_all_settled2 := @Gnet.Props.Drain2.quiescent_all_settled2
+
+theorem no_abort_before_exit : type_of% @Gnet.Props.Drain2.no_abort_before_exit := @Gnet.Props.Drain2.no_abort_before_exit
+
 /-! ### The order of the calls in the source is the order of the protocol (tie: regenerated table `Facts.protocolSites`)
 
 `nothing_stranded` is a theorem about a protocol with a particular order of steps. `DrainOrder.step` is the same protocol
@@ -74,6 +86,15 @@ theorem drain_order_embeds (n : Nat) (steps : List Drain.Step) :
       Drain.Quiescent (Drain.run (Drain.init n) steps) := by
   rw [← Proofs.DrainOrder.emb_init, Proofs.DrainOrder.embeds_run]
   exact ⟨rfl, Proofs.DrainOrder.emb_quiescent _⟩
+
+/-- ... so with the order of the code nothing is stranded in the parametrised protocol either -/
+theorem coded_order_nothing_stranded (n : Nat) (steps : List Drain.Step)
+    (hq : DrainOrder.Quiescent (DrainOrder.run DrainOrder.asCoded (DrainOrder.init n) steps) = true) :
+    (DrainOrder.run DrainOrder.asCoded (DrainOrder.init n) steps).queue = [] := by
+  have h := drain_order_embeds n steps
+  rw [h.1] at hq ⊢
+  rw [h.2] at hq
+  exact Props.Drain.nothing_stranded _ ⟨n, steps, rfl⟩ hq
 
 /-- a producer that looks at `exited` before it hands its registration over strands it -/
 theorem stranded_if_load_before_hand :
@@ -93,6 +114,10 @@ theorem drain_protocol_followed : DrainOrder.followed Facts.protocolSites = true
 example : DrainOrder.followed
     (Facts.protocolSites.map (fun e => if e.2.1 == "*eventloop.abortPending" then (e.1, e.2.1, ["drain", "store"]) else e))
     = false := by decide +kernel
+
+/-- the order of the statements of `engine.stop` / `Client.Stop` in the current source is the order of the stopper of the
+model: pollers and listeners are closed only after every loop has exited, the flag is set last (Props/C06.lean) -/
+theorem stop_order_followed : type_of% @Gnet.Props.C06.stop_order_followed := @Gnet.Props.C06.stop_order_followed
 
 end Gnet.Props.C07
 
